@@ -184,6 +184,15 @@ def sub_constructors_long(ctx, shard, n):
                      | st.builds(lambda s, k: s * k, st.sampled_from("#b"), st.integers(100, 400)))
     strat = st.tuples(st.sampled_from(CONSTRUCTOR_NAMES), name).map(list)
     ctx.given("constructor", check_constructor, strat, 1500 if ctx.quick else 40000)
+    if shard == 0:
+        # block spellings: k sharps then m flats (and the mirror image, and alternating pairs), far deeper than any random name nests
+        blocks = []
+        for letter in ("C", "E", "B"):
+            for k, m in ((13, 12), (51, 51), (52, 50), (100, 99), (300, 301), (1000, 1000)):
+                blocks += [letter + "#" * k + "b" * m, letter + "b" * k + "#" * m, letter + "#b" * min(k, m) + "b" * abs(k - m)]
+        ctx.exhaustive("constructors on block spellings with up to 1000 sharps and flats", "17 constructors x 54 names", 17 * len(blocks))
+        ctx.enumerate("constructor", check_constructor, [[c, nm] for nm in blocks for c in CONSTRUCTOR_NAMES])
+        ctx.enumerate("pair", check_pair, [[a, b] for a in ("C", "F#", "Bbb") for b in blocks] + [[b, a] for a in ("G", "Db") for b in blocks[::3]])
 
 
 def sub_pairs(ctx, shard, n):
